@@ -220,7 +220,7 @@ def build(read):
     if not re.match(r"\s*fn main\(\)\s*$", hdr):
         raise Undecided("main: unexpected signature")
     close = body.rstrip().rfind("}")
-    body = "{\n    let mut log: Ghost<Log> = Ghost(Log{err: Seq::empty(), out: Seq::empty()});\n" + body.strip()[1:close] .rstrip()
+    body = "{ /*VACUITY_PROBE*/\n    let mut log: Ghost<Log> = Ghost(Log{err: Seq::empty(), out: Seq::empty()});\n" + body.strip()[1:close] .rstrip()
     body = body.rstrip()
     if body.endswith("}"):
         pass
